@@ -30,6 +30,12 @@ def main():
         vcommon.log(tb)
         res.violation("obligation:check-crashed", "the check itself failed to run", tb)
     rc = res.finish()
+    if os.environ.get("VERIF_REPO") and os.path.realpath(os.environ["VERIF_REPO"]) != "/repo":
+        # a run against a private copy regenerated the tracked Generated/*.lean from that copy:
+        # put the committed files (generated from /repo) back so that they are never committed by accident
+        import subprocess
+        subprocess.run(["git", "-C", vcommon.VERIF, "checkout", "--", "lean/OvniModel/Generated"],
+                       stdout=subprocess.DEVNULL, stderr=subprocess.DEVNULL)
     sys.exit(rc)
 
 
